@@ -371,6 +371,7 @@ type agentObs struct {
 	sent      []string   // stamps sent and not filtered, in send order per connection: "g<gen>c<conn>a<app>-<seq>"
 	filtered  int        // records sent that the drop filter removes
 	early     int        // records sent that an input-stage extraction drops
+	unstamped int        // records sent without a stamp (agent-c12): not in `sent`, but lines the agent must have read before a stop
 	malformed int        // lines sent that are not records
 	chunks    []*upChunk // everything the upstream received, in order
 	chunks2   []*upChunk // the same for the second output's upstream (if configured)
@@ -451,7 +452,7 @@ func runAgent(sc agentScript) (obs agentObs) {
 				obs.panics = append(obs.panics, "config rejected: "+err.Error())
 				return
 			}
-			linesBefore := int64(len(obs.sent) + obs.filtered + obs.malformed + obs.early)
+			linesBefore := int64(len(obs.sent) + obs.filtered + obs.malformed + obs.early + obs.unstamped)
 			orc := ld.StartOrchestrator(logger.WithField("verif", "agent"))
 			addrs, shutdownInputs := ld.LaunchInputs(orc)
 			var wg sync.WaitGroup
@@ -502,6 +503,9 @@ func runAgent(sc agentScript) (obs agentObs) {
 							// no "[stamp] " prefix: the head extraction does not match and the stamp field stays empty; some are long
 							// enough for pooled backing buffers
 							fmt.Fprintf(w, "<14>1 2020-01-02T03:04:05.%06dZ host%d %s 77 src - NOSTAMP-%s %s\n", i, c, app, stamp, strings.Repeat("y", crng.Intn(3)*700))
+							mu.Lock()
+							obs.unstamped++
+							mu.Unlock()
 							continue
 						}
 						fmt.Fprintf(w, "<14>1 2020-01-02T03:04:05.%06dZ host%d %s 77 %s - [%s] %s\n", i, c, app, source, stamp, body)
@@ -590,9 +594,9 @@ func runAgent(sc agentScript) (obs agentObs) {
 			_ = hostileLines
 			// the property speaks of records the agent has read: wait until the input counters cover every line sent
 			mu.Lock()
-			want := int64(len(obs.sent)+obs.filtered+obs.malformed+obs.early) - linesBefore
+			want := int64(len(obs.sent)+obs.filtered+obs.malformed+obs.early+obs.unstamped) - linesBefore
 			mu.Unlock()
-			for deadline := time.Now().Add(3 * time.Second); !(sc.linger && !last) && time.Now().Before(deadline); {
+			for deadline := time.Now().Add(10 * time.Second); !(sc.linger && !last) && time.Now().Before(deadline); {
 				mm := dumpGatherer(ld.GetMetricGatherer())
 				if mm["input_passed_records_total"]+mm["input_dropped_records_total"] >= want {
 					break
